@@ -85,17 +85,13 @@ cJSON *create_routed_message(const struct peer *p, const char *path, enum type w
 		return NULL;
 	}
 
-	cJSON *json_id = cJSON_CreateString(id);
-	if (unlikely(json_id == NULL)) {
+	if (unlikely(add_item_to_object(message, "id", cJSON_CreateString(id)) < 0)) {
 		goto error;
 	}
-	cJSON_AddItemToObject(message, "id", json_id);
 
-	cJSON *method = cJSON_CreateString(path);
-	if (unlikely(method == NULL)) {
+	if (unlikely(add_item_to_object(message, "method", cJSON_CreateString(path)) < 0)) {
 		goto error;
 	}
-	cJSON_AddItemToObject(message, "method", method);
 
 	cJSON *value_copy;
 	if (value != NULL) {
@@ -103,19 +99,20 @@ cJSON *create_routed_message(const struct peer *p, const char *path, enum type w
 	} else {
 		value_copy = cJSON_CreateObject();
 	}
-	if (unlikely(value_copy == NULL)) {
-		goto error;
-	}
 
 	if (what == METHOD) {
-		cJSON_AddItemToObject(message, "params", value_copy);
-	} else {
-		cJSON *params = cJSON_CreateObject();
-		if (unlikely(params == NULL)) {
+		if (unlikely(add_item_to_object(message, "params", value_copy) < 0)) {
 			goto error;
 		}
-		cJSON_AddItemToObject(message, "params", params);
-		cJSON_AddItemToObject(params, "value", value_copy);
+	} else {
+		cJSON *params = cJSON_CreateObject();
+		if (unlikely(add_item_to_object(message, "params", params) < 0)) {
+			cJSON_Delete(value_copy);
+			goto error;
+		}
+		if (unlikely(add_item_to_object(params, "value", value_copy) < 0)) {
+			goto error;
+		}
 	}
 
 	return message;
